@@ -180,6 +180,9 @@ def compare_sessions(res, sessions, cls='corr/engine'):
         res.count('events', len(ev))
         fills = sum(1 for x in ev if x.startswith('FILL'))
         res.count('fills', fills)
+        if tr.final:
+            res.count('liquidations', tr.final.get('liquidations', 0))
+            res.count('closed_trades', len(tr.final.get('trades', [])))
         if err is not None:
             res.count('session-error:' + type(err).__name__)
         res.seen((line,), fills > 0)
